@@ -151,6 +151,9 @@ def run(ctx):
         # fallback _Custom
         has_custom = any(st[0] == "=" and st[2][0] == "agg" and st[2][1].get("k") == "adt" and st[2][1].get("variant") == "_Custom" and st[2][1]["adt"].endswith(any_enum)
                          for b in fn["body"]["blocks"] for st in b["s"])
+        # `.map(Self::_Custom)`: the constructor passed as a function value
+        has_custom = has_custom or any(o.get("k") == "const" and (o.get("fn") or "").endswith(f"{any_enum}::_Custom")
+                                       for _, c in M.calls(fn["body"]) for o in c["args"])
         ctx.check(has_custom, "C18.dispatch", f"C18.dispatch:{any_enum}:fallback", w.where(fn), bad_msg="unknown event types are not turned into the _Custom variant")
     ctx.count("dispatch_arms", n_arms)
     ctx.floor("dispatch arms", n_arms, 150)
@@ -188,7 +191,9 @@ def run(ctx):
               "deserialize": r"de::from_str\(RawValue::get\(" + J + r"\)\)", "deserialize_as": r"de::from_str\(RawValue::get\(" + J + r"\)\)"}
     for m, rx in expect.items():
         fn = w.fn(R + m)
-        ps = dex.paths(fn, [D.sym("json") if m == "from_json" else D.sym("self")])
+        # the accessors may be written in terms of each other (deserialize = deserialize_as::<T>): sibling methods are inlined
+        dexr = D.Dex(w.lookup, adt_discr=w.adt_discr, inline=lambda n: n.startswith(R) and "::" not in n[len(R):] and "{" not in n)
+        ps = dexr.paths(fn, [D.sym("json") if m == "from_json" else D.sym("self")])
         r = D.show(ps[0].ret) if len(ps) == 1 else ""
         ctx.check(re.fullmatch(rx, r) is not None, "C18.raw", f"C18.raw:{m}", w.where(fn), bad_msg=f"{m} is {r[:120]}")
     fn = w.fn(R + "cast")
